@@ -608,7 +608,17 @@ def run(ctx, chk):
     F = run_fsm(ctx, chk, tables)
     feed_wrapper(ctx, chk, SPECIAL)
     # D4 R-CAP is decided with C01 (same obligations); repeat the parameter-push instances here
-    from . import rules_c01
+    param_fidelity(ctx, chk)
+    if ctx.tier == 'thorough' and ctx.test_prog is not None:
+        sibling(ctx, chk, F)
+    chk.trust('generator-rs send/yield_ contract (A-GEN)', 'string summaries (eq, contains, chars, parse)', 'rustc MIR + const evaluation')
+
+
+def param_fidelity(ctx, chk):
+    """R-CAP: the numbers typed in a control sequence reach the listener as typed - empty = 0, the
+    parsed number itself capped at 9999 (not a narrowed copy), an unparsable run saturating.  Every
+    property about an operation with a numeric parameter (counts, coordinates, selectors, mode numbers)
+    rests on this when the operation arrives through the parser, so their checks include it."""
     pr = ctx.parser_run()
     agg = {}
     for p in pr.get('pushes', []):
@@ -620,9 +630,7 @@ def run(ctx, chk):
     for (f, o), a in sorted(agg.items()):
         chk.instance('R-CAP', short(f), 'push#%d:cap' % o, a['ok'], detail=a['detail'], span=a['span'],
                      what='CSI parameter: empty = 0, saturating at 9999: ' + a['detail'])
-    if ctx.tier == 'thorough' and ctx.test_prog is not None:
-        sibling(ctx, chk, F)
-    chk.trust('generator-rs send/yield_ contract (A-GEN)', 'string summaries (eq, contains, chars, parse)', 'rustc MIR + const evaluation')
+    chk.floor('CSI parameter pushes', len(agg), 1)
 
 
 def sibling(ctx, chk, F):
